@@ -507,6 +507,16 @@ def plan_c12(run, tmp):
     env = dict(V.GOENV, GORACE="log_path=%s halt_on_error=0" % V.os.path.join(outl, "race"))
     p = V.subprocess.run([hxr, "concload", "-seed", str(run.seed), "-tier", run.tier, "-out", outl, "-shards", str(V.NCPU)], env=env, capture_output=True, text=True, timeout=3600)
     if p.returncode != 0 and p.returncode != 66:
+        # the Go runtime aborts a process in which two goroutines use one map without synchronisation:
+        # the harness only reads its shared maps, so such an abort is the library's doing
+        if "fatal error: concurrent map" in p.stderr:
+            V.os.makedirs(V.os.path.join(V.VERIF, "replays"), exist_ok=True)
+            rp = V.os.path.join(V.VERIF, "replays", "C12-fatal-seed%d.txt" % run.seed)
+            with open(rp, "w") as f:
+                f.write("reproduce: build harness with -race; hx concload -seed %d -tier %s\n\n" % (run.seed, run.tier))
+                f.write(p.stderr[-20000:])
+            run.violations.append(("C12.fatal", "the Go runtime aborted the load run: concurrent use of one map", rp, 1))
+            return V.finish(run, "model_checking", "load run aborted by the Go runtime (concurrent map access)")
         raise V.Infra("concload failed: %s" % (p.stderr[-2000:]))
     races = [f for f in V.os.listdir(outl) if f.startswith("race.")]
     shards = V.shard_files(outl)
